@@ -20,7 +20,7 @@ from sim.core import Gen, Violation
 PROP = "C12"
 LEVEL = "exploration"
 HASH_VARIANTS = 1
-RUNS = {"quick": 2500, "thorough": 300000}
+RUNS = {"quick": 2500, "thorough": 150000}
 WALL_LIMIT = {"quick": 1200, "thorough": 5 * 3600}
 PROBES = ["decorated_more_than_once", "hed_string_context_pushed_by_caller", "warnings_off_run", "issue_with_offsets", "sort_checked",
           "json_checked", "entry_string", "entry_sidecar", "entry_table", "direct_format_subtag", "handler_shared_across_entry_points",
